@@ -4,10 +4,13 @@
 //!   fvh <ID> --replay <file>         run one stored case through the same oracle
 //!   fvh child <what> ...             helper re-executions (cross-process steps of C08 / C15)
 
+#[macro_use]
 mod engine;
 mod util;
 
+mod c07;
 mod c12;
+mod gen;
 
 use engine::{Env, Tier};
 use std::path::PathBuf;
@@ -40,6 +43,7 @@ fn main() {
     let prop: &'static str = Box::leak(args[1].clone().into_boxed_str());
     let env = Env { prop, tier, seed, workers, known: engine::load_known(&verif_dir), verif_dir, strict_replay: replay.is_some() };
     let code = match prop {
+        "C07" => c07::run(&env, replay.as_deref()),
         "C12" => c12::run(&env, replay.as_deref()),
         _ => {
             eprintln!("unknown property {}", prop);
